@@ -222,7 +222,7 @@ MANIFEST = {
     "it is at or above the structural minimum: corollaries of C01.render_fits, which holds at every width), `text_measure_spec` (minimum = "
     "widest whitespace-separated word, maximum = widest line, attained, min <= max), `text_at_max_not_wrapped` + `divide_line_nil_of_fits` "
     "(divide_line finds no break in any paragraph at a width >= the measured maximum), and the witness "
-    "`known_group_with_progressbar_measure_unsound` (F23).  Tie: Measurement.get of real rich vs the model on ~60k (quick) / ~1.3M "
+    "`known_group_with_progressbar_measure_unsound` (F23).  Tie: Measurement.get of real rich vs the model on ~60k (quick) / ~1.6M "
     "(thorough) cases: corner trees and seeded random trees (generator of C01 plus casts / measure-less roots) at every available width 0..60 "
     "and beyond, renderings at every reported maximum/minimum, random texts for Text.__rich_measure__ and wrapping at the maximum; the "
     "statements evaluated directly on rich's answers.",
